@@ -3,40 +3,84 @@ import AsmjitVerif.Lemmas.RelInv
 namespace AsmjitVerif.CodeHolder
 open AsmjitVerif.Offset
 
-theorem grow_of_frame {s s' : State} (f : Frame s s') (hc : True) (news : List Rgn)
+theorem grow_of_frame {s s' : State} (f : Frame s s') (ht : s'.addrTabSec = s.addrTabSec) (hcu : s'.cur = s.cur) (news : List Rgn)
     (hr : s'.relocs.map Reloc.rgn = s.relocs.map Reloc.rgn ++ news) (hl : news.length ≤ 1)
-    (hnew : ∀ r ∈ news, r.sec = s.cur ∧ s.curOff ≤ r.off ∧ RInB s'.secs r) : Grow s s' :=
-  ⟨LenExt.of_ext f.secs, ⟨news, hr, hl, hnew⟩, ⟨[], by rw [f.ghost]; simp, fun _ h => by cases h⟩, .inr f.ghost⟩
+    (hnew : ∀ r ∈ news, r.sec = s.cur ∧ s.curOff ≤ r.off ∧ RInB s'.secs r ∧ RZero s'.secs r) : Grow s s' :=
+  ⟨LenExt.of_ext f.secs, fun g hg _ => field_ext f.secs hg, ⟨news, hr, hl, hnew⟩,
+   ⟨[], by rw [f.ghost]; simp, fun _ h => by cases h⟩, .inr f.ghost, .inl ht, by rw [ht, hcu]; exact id⟩
 
-theorem grow_frame {s s' : State} (f : Frame s s') (hr : s'.relocs = s.relocs) : Grow s s' :=
-  grow_of_frame f trivial [] (by rw [hr]; simp) (by simp) (fun _ h => by cases h)
+theorem grow_ext {s s' : State} (he : SecsExt s.secs s'.secs) (hr : s'.relocs = s.relocs) (hg : s'.ghost = s.ghost)
+    (ht : s'.addrTabSec = s.addrTabSec) (hco : s.addrTabSec ≠ some s.cur → s'.addrTabSec ≠ some s'.cur) : Grow s s' :=
+  ⟨LenExt.of_ext he, fun g hgi _ => field_ext he hgi, ⟨[], by rw [hr]; simp, by simp, fun _ h => by cases h⟩,
+   ⟨[], by rw [hg]; simp, fun _ h => by cases h⟩, .inr hg, .inl ht, hco⟩
 
-theorem rinb_emit (s : State) (hcur : s.cur < s.secs.length) (bytes : Bytes) (r : Rgn) (h1 : r.sec = s.cur) (h2 : r.off = s.curOff)
-    (h3 : r.size ≤ bytes.length) (h4 : r.fmt.valueOffset + r.fmt.valueSize ≤ r.size) (h5 : 0 < r.fmt.valueSize) :
-    RInB (modifySec s.secs s.cur (fun sec => { sec with buf := sec.buf ++ bytes })) r := by
+theorem grow_emit (s : State) (bs : Bytes) : Grow s (s.emit bs) :=
+  grow_ext (secsExt_modifySec _ _ _ (fun x => ⟨bs, rfl⟩)) rfl rfl rfl id
+
+theorem grow_refl (s : State) : Grow s s := grow_ext (SecsExt.refl _) rfl rfl rfl id
+
+/-- what a relocation site must establish about the bytes it emits (`bytes` = everything emitted for the instruction / datum) -/
+structure SiteOK (s : State) (r : Rgn) (bytes : Bytes) : Prop where
+  sec  : r.sec = s.cur
+  off  : r.off = s.curOff
+  size : r.size ≤ bytes.length
+  val  : r.fmt.valueOffset + r.fmt.valueSize ≤ r.size
+  pos  : 0 < r.fmt.valueSize
+  fmt  : ({ r.fmt with valueOffset := 0 } : OffsetFormat) ∈ formatsProved
+  tab  : r.ty = .x64AddressEntry → 2 ≤ r.fmt.valueOffset
+  zero : ∃ old, loadLE bytes r.fmt.valueOffset r.fmt.valueSize = some old ∧
+           (if r.fmt.valueSize = 8 then old = 0 else BitVec.ofNat 32 old &&& fieldMask32 r.fmt = 0#32)
+
+theorem rgn_emit (s : State) (hcur : s.cur < s.secs.length) (bytes : Bytes) (r : Rgn) (h : SiteOK s r bytes) :
+    RInB (modifySec s.secs s.cur (fun sec => { sec with buf := sec.buf ++ bytes })) r ∧
+    RZero (modifySec s.secs s.cur (fun sec => { sec with buf := sec.buf ++ bytes })) r := by
   have hs : s.secs[s.cur]? = some (s.secs[s.cur]'hcur) := by simp [hcur]
   have hco : s.curOff = (s.secs[s.cur]'hcur).buf.length := by unfold State.curOff; rw [hs]
-  refine ⟨_, by rw [h1]; exact modifySec_get_same _ _ _ _ hs, ?_, h4, h5⟩
-  simp only [List.length_append]; omega
+  have hget := modifySec_get_same s.secs s.cur (fun sec => { sec with buf := sec.buf ++ bytes }) _ hs
+  constructor
+  · refine ⟨_, by rw [h.sec]; exact hget, ?_, h.val, h.pos, h.fmt, h.tab⟩
+    have := h.off; have := h.size
+    simp only [List.length_append]; omega
+  · obtain ⟨old, ho, hz⟩ := h.zero
+    refine ⟨old, ?_, hz⟩
+    unfold field
+    show (_[r.sec]?).bind _ = _
+    rw [h.sec, hget]
+    simp only [Option.bind_some]
+    show loadLE (_ ++ bytes) (r.off + r.fmt.valueOffset) _ = _
+    rw [h.off, hco, loadLE_append_right]
+    exact ho
 
-theorem rinb_emit2 (s : State) (hcur : s.cur < s.secs.length) (b1 b2 : Bytes) (r : Rgn) (h1 : r.sec = s.cur) (h2 : r.off = s.curOff)
-    (h3 : r.size ≤ b1.length + b2.length) (h4 : r.fmt.valueOffset + r.fmt.valueSize ≤ r.size) (h5 : 0 < r.fmt.valueSize) :
-    RInB (modifySec (modifySec s.secs s.cur (fun sec => { sec with buf := sec.buf ++ b1 })) s.cur
-      (fun sec => { sec with buf := sec.buf ++ b2 })) r := by
-  have hs : s.secs[s.cur]? = some (s.secs[s.cur]'hcur) := by simp [hcur]
-  have hco : s.curOff = (s.secs[s.cur]'hcur).buf.length := by unfold State.curOff; rw [hs]
-  refine ⟨_, by rw [h1]; exact modifySec_get_same _ _ _ _ (modifySec_get_same _ _ _ _ hs), ?_, h4, h5⟩
-  simp only [List.length_append]; omega
+theorem modifySec_twice (secs : List Section) (c : Nat) (b1 b2 : Bytes) :
+    modifySec (modifySec secs c (fun sec => { sec with buf := sec.buf ++ b1 })) c (fun sec => { sec with buf := sec.buf ++ b2 }) =
+    modifySec secs c (fun sec => { sec with buf := sec.buf ++ (b1 ++ b2) }) := by
+  cases hs : secs[c]? with
+  | none => simp [modifySec, hs]
+  | some sec =>
+    apply List.ext_getElem?
+    intro j
+    by_cases hj : c = j
+    · subst hj
+      rw [modifySec_get_same _ _ _ _ (modifySec_get_same _ _ _ _ hs), modifySec_get_same _ _ _ _ hs]
+      simp [List.append_assoc]
+    · rw [modifySec_get_ne _ _ _ _ hj, modifySec_get_ne _ _ _ _ hj, modifySec_get_ne _ _ _ _ hj]
 
 /-- `new_fixup` then emission, on top of a frame step `s → s1` that may have added relocation regions `news` -/
-theorem grow_newFixup_emit (s s1 : State) (hf : Frame s s1) (hcur : s1.cur = s.cur) (l : Nat) (f : Fixup) (tail : Bytes)
+theorem grow_newFixup_emit (s s1 : State) (hf : Frame s s1) (hcur : s1.cur = s.cur) (ht : s1.addrTabSec = s.addrTabSec)
+    (l : Nat) (f : Fixup) (tail : Bytes)
     (news : List Rgn) (hr : s1.relocs.map Reloc.rgn = s.relocs.map Reloc.rgn ++ news) (hl : news.length ≤ 1)
     (hnew : ∀ r ∈ news, r.sec = s.cur ∧ s.curOff ≤ r.off ∧
-      RInB (modifySec s1.secs s1.cur (fun sec => { sec with buf := sec.buf ++ tail })) r)
+      RInB (modifySec s1.secs s1.cur (fun sec => { sec with buf := sec.buf ++ tail })) r ∧
+      RZero (modifySec s1.secs s1.cur (fun sec => { sec with buf := sec.buf ++ tail })) r)
     (hsec : f.sec = s.cur) (hoff : s.curOff ≤ f.offset) (hboth : f.lr = none → news = []) :
     Grow s ((newFixup s1 l f).emit tail) := by
-  have hlen : LenExt s.secs (modifySec s1.secs s1.cur (fun sec => { sec with buf := sec.buf ++ tail })) :=
-    LenExt.of_ext (hf.secs.trans (secsExt_modifySec _ _ _ (fun x => ⟨tail, rfl⟩)))
+  have hext : SecsExt s.secs (modifySec s1.secs s1.cur (fun sec => { sec with buf := sec.buf ++ tail })) :=
+    hf.secs.trans (secsExt_modifySec _ _ _ (fun x => ⟨tail, rfl⟩))
+  have hlen := LenExt.of_ext hext
+  have hkeep : ∀ g, InB s.secs g → (∀ x ∈ s.ghost, D g x) →
+      field (modifySec s1.secs s1.cur (fun sec => { sec with buf := sec.buf ++ tail })) g = field s.secs g :=
+    fun g hg _ => field_ext hext hg
+  have hco : s.addrTabSec ≠ some s.cur → s1.addrTabSec ≠ some s1.cur := by rw [ht, hcur]; exact id
   have hlog : (logRef s1.ghost l f = s1.ghost ∧ (f.lr = none → False)) ∨ (logRef s1.ghost l f = s1.ghost ++ [f.toG l] ∧ f.lr = none) := by
     unfold logRef
     cases hx : f.lr with
@@ -47,71 +91,70 @@ theorem grow_newFixup_emit (s s1 : State) (hf : Frame s s1) (hcur : s1.cur = s.c
   unfold newFixup
   cases hlab : s1.labels[l]? with
   | none =>
-    exact ⟨hlen, ⟨news, hr, hl, hnew⟩, ⟨[], by show s1.ghost = _; rw [hf.ghost]; simp, fun _ h => by cases h⟩, .inr hf.ghost⟩
+    exact ⟨hlen, hkeep, ⟨news, hr, hl, hnew⟩, ⟨[], by show s1.ghost = _; rw [hf.ghost]; simp, fun _ h => by cases h⟩, .inr hf.ghost,
+      .inl ht, hco⟩
   | some le =>
     cases le with
     | unbound fx =>
       dsimp only
       rcases hlog with ⟨e, _⟩ | ⟨e, hn⟩
-      · exact ⟨hlen, ⟨news, hr, hl, hnew⟩, ⟨[], by show logRef s1.ghost l f = _; rw [e, hf.ghost]; simp, fun _ h => by cases h⟩,
-          .inr (by show logRef s1.ghost l f = _; rw [e, hf.ghost])⟩
+      · exact ⟨hlen, hkeep, ⟨news, hr, hl, hnew⟩, ⟨[], by show logRef s1.ghost l f = _; rw [e, hf.ghost]; simp, fun _ h => by cases h⟩,
+          .inr (by show logRef s1.ghost l f = _; rw [e, hf.ghost]), .inl ht, hco⟩
       · have hnews := hboth hn
-        exact ⟨hlen, ⟨news, hr, hl, hnew⟩, ⟨[f.toG l], by show logRef s1.ghost l f = _; rw [e, hf.ghost], hgnew⟩,
-          .inl (by show s1.relocs.map Reloc.rgn = _; rw [hr, hnews]; simp)⟩
+        exact ⟨hlen, hkeep, ⟨news, hr, hl, hnew⟩, ⟨[f.toG l], by show logRef s1.ghost l f = _; rw [e, hf.ghost], hgnew⟩,
+          .inl (by show s1.relocs.map Reloc.rgn = _; rw [hr, hnews]; simp), .inl ht, hco⟩
     | bound bs bo =>
       dsimp only
       rcases hlog with ⟨e, _⟩ | ⟨e, hn⟩
-      · exact ⟨hlen, ⟨news, hr, hl, hnew⟩, ⟨[], by show logRef s1.ghost l f = _; rw [e, hf.ghost]; simp, fun _ h => by cases h⟩,
-          .inr (by show logRef s1.ghost l f = _; rw [e, hf.ghost])⟩
+      · exact ⟨hlen, hkeep, ⟨news, hr, hl, hnew⟩, ⟨[], by show logRef s1.ghost l f = _; rw [e, hf.ghost]; simp, fun _ h => by cases h⟩,
+          .inr (by show logRef s1.ghost l f = _; rw [e, hf.ghost]), .inl ht, hco⟩
       · have hnews := hboth hn
-        exact ⟨hlen, ⟨news, hr, hl, hnew⟩, ⟨[f.toG l], by show logRef s1.ghost l f = _; rw [e, hf.ghost], hgnew⟩,
-          .inl (by show s1.relocs.map Reloc.rgn = _; rw [hr, hnews]; simp)⟩
+        exact ⟨hlen, hkeep, ⟨news, hr, hl, hnew⟩, ⟨[f.toG l], by show logRef s1.ghost l f = _; rw [e, hf.ghost], hgnew⟩,
+          .inl (by show s1.relocs.map Reloc.rgn = _; rw [hr, hnews]; simp), .inl ht, hco⟩
 
 /-- a plain reference site: `emit lead; new_fixup; emit tail`, no relocation -/
 theorem grow_site (s : State) (hc : s.cur < s.secs.length) (lead tail : Bytes) (l : Nat) (f : Fixup)
     (hsec : f.sec = s.cur) (hoff : s.curOff ≤ f.offset) : Grow s ((newFixup (s.emit lead) l f).emit tail) :=
-  grow_newFixup_emit s (s.emit lead) (frame_emit _ _ hc) rfl l f tail [] (by show s.relocs.map Reloc.rgn = _; simp) (by simp) (fun _ h => by cases h) hsec hoff (fun _ => rfl)
+  grow_newFixup_emit s (s.emit lead) (frame_emit _ _ hc) rfl rfl l f tail [] (by show s.relocs.map Reloc.rgn = _; simp) (by simp)
+    (fun _ h => by cases h) hsec hoff (fun _ => rfl)
 
 /-- `new_reloc_entry` (+ caller's assignments) followed by the emission of the whole region -/
-theorem grow_newReloc_emit (s : State) (hc : s.cur < s.secs.length) (re : Reloc) (bytes : Bytes)
-    (h1 : re.srcSec = s.cur) (h2 : re.srcOff = s.curOff) (h3 : re.regionSize ≤ bytes.length)
-    (h4 : re.fmt.valueOffset + re.fmt.valueSize ≤ re.regionSize) (h5 : 0 < re.fmt.valueSize) :
+theorem grow_newReloc_emit (s : State) (hc : s.cur < s.secs.length) (re : Reloc) (bytes : Bytes) (h : SiteOK s re.rgn bytes) :
     Grow s ((newReloc s re).1.emit bytes) :=
-  grow_of_frame (frame_newReloc_emit s re bytes hc) trivial [re.rgn]
+  grow_of_frame (frame_newReloc_emit s re bytes hc) rfl rfl [re.rgn]
     (by show (s.relocs ++ [re]).map Reloc.rgn = _; simp) (by simp)
     (by intro r hr; simp only [List.mem_singleton] at hr; subst hr
-        exact ⟨h1, by show s.curOff ≤ re.srcOff; omega, rinb_emit s hc bytes re.rgn h1 h2 h3 h4 h5⟩)
-
-theorem grow_reloc_fixup (s : State) (hc : s.cur < s.secs.length) (re : Reloc) (lead tail : Bytes) (l : Nat) (f : Fixup)
-    (h1 : re.srcSec = s.cur) (h2 : re.srcOff = s.curOff) (h3 : re.regionSize ≤ lead.length + tail.length)
-    (h4 : re.fmt.valueOffset + re.fmt.valueSize ≤ re.regionSize) (h5 : 0 < re.fmt.valueSize)
-    (hsec : f.sec = s.cur) (hoff : s.curOff ≤ f.offset) (hlr : f.lr ≠ none) :
-    Grow s ((newFixup ((newReloc s re).1.emit lead) l f).emit tail) := by
-  refine grow_newFixup_emit s _ (frame_newReloc_emit s re lead hc) rfl l f tail [re.rgn]
-    (by show (s.relocs ++ [re]).map Reloc.rgn = _; simp) (by simp) ?_ hsec hoff (fun hn => absurd hn hlr)
-  intro r hr
-  simp only [List.mem_singleton] at hr; subst hr
-  exact ⟨h1, by show s.curOff ≤ re.srcOff; omega, rinb_emit2 s hc lead tail re.rgn h1 h2 h3 h4 h5⟩
-
-theorem grow_reloc_fixup0 (s : State) (hc : s.cur < s.secs.length) (re : Reloc) (tail : Bytes) (l : Nat) (f : Fixup)
-    (h1 : re.srcSec = s.cur) (h2 : re.srcOff = s.curOff) (h3 : re.regionSize ≤ tail.length)
-    (h4 : re.fmt.valueOffset + re.fmt.valueSize ≤ re.regionSize) (h5 : 0 < re.fmt.valueSize)
-    (hsec : f.sec = s.cur) (hoff : s.curOff ≤ f.offset) (hlr : f.lr ≠ none) :
-    Grow s ((newFixup (newReloc s re).1 l f).emit tail) := by
-  refine grow_newFixup_emit s _ (frame_newReloc s re hc) rfl l f tail [re.rgn]
-    (by show (s.relocs ++ [re]).map Reloc.rgn = _; simp) (by simp) ?_ hsec hoff (fun hn => absurd hn hlr)
-  intro r hr
-  simp only [List.mem_singleton] at hr; subst hr
-  exact ⟨h1, by show s.curOff ≤ re.srcOff; omega, rinb_emit s hc tail re.rgn h1 h2 h3 h4 h5⟩
+        have := rgn_emit s hc bytes re.rgn h
+        exact ⟨h.sec, by rw [h.off]; exact Nat.le_refl _, this.1, this.2⟩)
 
 theorem grow_exprs_emit (s : State) (hc : s.cur < s.secs.length) (re : Reloc) (e : List (Nat × Nat)) (bytes : Bytes)
-    (h1 : re.srcSec = s.cur) (h2 : re.srcOff = s.curOff) (h3 : re.regionSize ≤ bytes.length)
-    (h4 : re.fmt.valueOffset + re.fmt.valueSize ≤ re.regionSize) (h5 : 0 < re.fmt.valueSize) :
-    Grow s (State.emit { (newReloc s re).1 with exprs := e } bytes) :=
-  grow_of_frame (frame_exprs_emit s re e bytes hc) trivial [re.rgn]
+    (h : SiteOK s re.rgn bytes) : Grow s (State.emit { (newReloc s re).1 with exprs := e } bytes) :=
+  grow_of_frame (frame_exprs_emit s re e bytes hc) rfl rfl [re.rgn]
     (by show (s.relocs ++ [re]).map Reloc.rgn = _; simp) (by simp)
     (by intro r hr; simp only [List.mem_singleton] at hr; subst hr
-        exact ⟨h1, by show s.curOff ≤ re.srcOff; omega, rinb_emit s hc bytes re.rgn h1 h2 h3 h4 h5⟩)
+        have := rgn_emit s hc bytes re.rgn h
+        exact ⟨h.sec, by rw [h.off]; exact Nat.le_refl _, this.1, this.2⟩)
+
+theorem grow_reloc_fixup (s : State) (hc : s.cur < s.secs.length) (re : Reloc) (lead tail : Bytes) (l : Nat) (f : Fixup)
+    (h : SiteOK s re.rgn (lead ++ tail)) (hsec : f.sec = s.cur) (hoff : s.curOff ≤ f.offset) (hlr : f.lr ≠ none) :
+    Grow s ((newFixup ((newReloc s re).1.emit lead) l f).emit tail) := by
+  refine grow_newFixup_emit s _ (frame_newReloc_emit s re lead hc) rfl rfl l f tail [re.rgn]
+    (by show (s.relocs ++ [re]).map Reloc.rgn = _; simp) (by simp) ?_ hsec hoff (fun hn => absurd hn hlr)
+  intro r hr
+  simp only [List.mem_singleton] at hr; subst hr
+  have := rgn_emit s hc (lead ++ tail) re.rgn h
+  rw [← modifySec_twice] at this
+  exact ⟨h.sec, by rw [h.off]; exact Nat.le_refl _, this.1, this.2⟩
+
+theorem grow_reloc_fixup0 (s : State) (hc : s.cur < s.secs.length) (re : Reloc) (tail : Bytes) (l : Nat) (f : Fixup)
+    (h : SiteOK s re.rgn tail) (hsec : f.sec = s.cur) (hoff : s.curOff ≤ f.offset) (hlr : f.lr ≠ none) :
+    Grow s ((newFixup (newReloc s re).1 l f).emit tail) := by
+  refine grow_newFixup_emit s _ (frame_newReloc s re hc) rfl rfl l f tail [re.rgn]
+    (by show (s.relocs ++ [re]).map Reloc.rgn = _; simp) (by simp) ?_ hsec hoff (fun hn => absurd hn hlr)
+  intro r hr
+  simp only [List.mem_singleton] at hr; subst hr
+  have := rgn_emit s hc tail re.rgn h
+  exact ⟨h.sec, by rw [h.off]; exact Nat.le_refl _, this.1, this.2⟩
 
 theorem relocs_rgn_modify (rs : List Reloc) (i : Nat) (f : Reloc → Reloc) (hf : ∀ r, (f r).rgn = r.rgn) :
     (modifyReloc rs i f).map Reloc.rgn = rs.map Reloc.rgn := by
@@ -146,34 +189,6 @@ theorem bindLoop_rgn (l toSec : Nat) (toOff : BitVec 64) : ∀ (fx : List Fixup)
   | nil => intro acc; rfl
   | cons f rest ih => intro acc; simp only [List.foldl_cons]; rw [ih, bindStep_rgn]
 
-theorem grow_bindLabel (s : State) (h : Inv s) (l sec : Nat) (off : BitVec 64) : Grow s (bindLabel s l sec off).1 := by
-  have hrefl : Grow s s := grow_frame (Frame.refl h.cur) rfl
-  unfold bindLabel
-  cases hle : s.labels[l]? with
-  | none => exact hrefl
-  | some le =>
-    dsimp only
-    by_cases hs : sec ≥ s.secs.length
-    · simp only [hs, if_true]; exact hrefl
-    · simp only [hs, if_false]
-      cases le with
-      | bound _ _ => exact hrefl
-      | unbound fx =>
-        dsimp only
-        have hlab := h.lab l fx hle
-        have LS := bindLoop_spec l sec off fx { secs := s.secs, relocs := s.relocs, kept := [], resolved := 0, err := .ok }
-          (fun f hf hn => h.fmts _ (hlab.1 f hf hn)) (fun f hf hn => h.inb _ (hlab.1 f hf hn)) hlab.2
-        refine ⟨LenExt.of_shape LS.shape, ⟨[], ?_, by simp, fun _ h => by cases h⟩, ⟨[], by simp, fun _ h => by cases h⟩, .inr rfl⟩
-        show (fx.foldl (bindStep l sec off) _).relocs.map Reloc.rgn = _
-        rw [bindLoop_rgn]; simp
-
-theorem grow_ext {s s' : State} (he : SecsExt s.secs s'.secs) (hr : s'.relocs = s.relocs) (hg : s'.ghost = s.ghost) : Grow s s' :=
-  ⟨LenExt.of_ext he, ⟨[], by rw [hr]; simp, by simp, fun _ h => by cases h⟩, ⟨[], by rw [hg]; simp, fun _ h => by cases h⟩, .inr hg⟩
-
-theorem grow_emit (s : State) (bs : Bytes) : Grow s (s.emit bs) :=
-  grow_ext (secsExt_modifySec _ _ _ (fun x => ⟨bs, rfl⟩)) rfl rfl
-
-theorem grow_refl (s : State) : Grow s s := grow_ext (SecsExt.refl _) rfl rfl
 
 theorem leBytes_length (v n : Nat) : (leBytes v n).length = n := by
   induction n generalizing v with
@@ -187,6 +202,7 @@ theorem pow2UpTo8_pos {n : Nat} (h : ¬ (!isPow2UpTo8 n) = true) : 0 < n := by
   rcases Nat.eq_zero_or_pos n with h0 | h0
   · subst h0; simp at h
   · exact h0
+
 
 theorem curOff_addAddress (s : State) (a : BitVec 64) (hc : s.cur < s.secs.length) :
     (addAddress s a).cur = s.cur ∧ (addAddress s a).curOff = s.curOff ∧ (addAddress s a).relocs = s.relocs ∧
@@ -212,33 +228,138 @@ theorem curOff_addAddress (s : State) (a : BitVec 64) (hc : s.cur < s.secs.lengt
       have hne : s.secs.length ≠ s.cur := by omega
       rw [modifySec_get_ne _ _ _ _ hne, List.getElem?_append_left hc]
 
-/-- a step that adds nothing, followed by a `Grow` step from a state with the same cursor -/
-theorem grow_after {a b c : State} (he : SecsExt a.secs b.secs) (hr : b.relocs = a.relocs) (hg : b.ghost = a.ghost)
-    (hc : b.cur = a.cur) (ho : b.curOff = a.curOff) (g : Grow b c) : Grow a c := by
+
+theorem grow_bindLabel (s : State) (h : Inv s) (l sec : Nat) (off : BitVec 64) : Grow s (bindLabel s l sec off).1 := by
+  unfold bindLabel
+  cases hle : s.labels[l]? with
+  | none => exact grow_refl s
+  | some le =>
+    dsimp only
+    by_cases hs : sec ≥ s.secs.length
+    · simp only [hs, if_true]; exact grow_refl s
+    · simp only [hs, if_false]
+      cases le with
+      | bound _ _ => exact grow_refl s
+      | unbound fx =>
+        dsimp only
+        have hlab := h.lab l fx hle
+        have LS := bindLoop_spec l sec off fx { secs := s.secs, relocs := s.relocs, kept := [], resolved := 0, err := .ok }
+          (fun f hf hn => h.fmts _ (hlab.1 f hf hn)) (fun f hf hn => h.inb _ (hlab.1 f hf hn)) hlab.2
+        refine ⟨LenExt.of_shape LS.shape, ?_, ⟨[], ?_, by simp, fun _ h => by cases h⟩, ⟨[], by simp, fun _ h => by cases h⟩, .inr rfl,
+          .inl rfl, id⟩
+        · intro g _ hD
+          exact LS.frame g (fun f hf hn => hD _ (hlab.1 f hf hn))
+        · show (fx.foldl (bindStep l sec off) _).relocs.map Reloc.rgn = _
+          rw [bindLoop_rgn]; simp
+
+/-- a step that adds nothing (possibly creating the address table section), followed by a `Grow` step -/
+theorem grow_after {a b c : State} (hac : a.cur < a.secs.length) (he : SecsExt a.secs b.secs) (hr : b.relocs = a.relocs)
+    (hg : b.ghost = a.ghost) (hc : b.cur = a.cur) (ho : b.curOff = a.curOff)
+    (hab : b.addrTabSec = a.addrTabSec ∨ (a.addrTabSec = none ∧ b.addrTabSec = some a.secs.length))
+    (hbc : c.addrTabSec = b.addrTabSec) (g : Grow b c) : Grow a c := by
   obtain ⟨news, h1, h2, h3⟩ := g.newR
   obtain ⟨newg, h4, h5⟩ := g.newG
-  refine ⟨fun i sec hs => ?_, ⟨news, by rw [h1, hr], h2, fun r hx => by rw [← hc, ← ho]; exact h3 r hx⟩,
-    ⟨newg, by rw [h4, hg], fun x hx => by rw [← hc, ← ho]; exact h5 x hx⟩, ?_⟩
+  refine ⟨fun i sec hs => ?_, ?_, ⟨news, by rw [h1, hr], h2, fun r hx => by rw [← hc, ← ho]; exact h3 r hx⟩,
+    ⟨newg, by rw [h4, hg], fun x hx => by rw [← hc, ← ho]; exact h5 x hx⟩, ?_, ?_, ?_⟩
   · obtain ⟨s1, e1, e2⟩ := (LenExt.of_ext he) i sec hs
     obtain ⟨s2, e3, e4⟩ := g.len i s1 e1
     exact ⟨s2, e3, by omega⟩
+  · intro x hx hD
+    rw [g.keep x (hx.ext he) (by rw [hg]; exact hD)]
+    exact field_ext he hx
   · rcases g.notBoth with e | e
     · exact .inl (by rw [e, hr])
     · exact .inr (by rw [e, hg])
+  · rw [hbc]; exact hab
+  · intro hn
+    apply g.curOk
+    rw [hc]
+    rcases hab with e | ⟨_, e⟩
+    · rw [e]; exact hn
+    · rw [e]; intro hx; have := Option.some.inj hx; omega
+
+/-! ### the bytes emitted at relocation sites -/
+
+theorem zl_zeros (n : Nat) : loadLE (zeros n) 0 n = some 0 := by
+  have := loadLE_zeros n n 0 [] (by omega); simpa using this
+theorem zl_lead (lead : Bytes) (n : Nat) : loadLE (lead ++ zeros n) lead.length n = some 0 := by
+  have := loadLE_append_right n lead (zeros n) 0
+  simp only [Nat.add_zero] at this; rw [this]; exact zl_zeros n
+theorem zl_lead_imm (lead imm : Bytes) (n : Nat) : loadLE (lead ++ (zeros n ++ imm)) lead.length n = some 0 := by
+  have := loadLE_append_right n lead (zeros n ++ imm) 0
+  simp only [Nat.add_zero] at this; rw [this]; exact loadLE_zeros n n 0 imm (by omega)
+theorem zcond (vs : Nat) (m : BitVec 32) : (if vs = 8 then (0 : Nat) = 0 else BitVec.ofNat 32 0 &&& m = 0#32) := by
+  split <;> simp
+
+theorem simple_mem (t : OffsetType) (ht : t = .unsigned ∨ t = .signed) (n : Nat) (h : isPow2UpTo8 n = true) :
+    ({ simpleValue t n with valueOffset := 0 } : OffsetFormat) ∈ formatsProved := by
+  unfold isPow2UpTo8 at h
+  simp only [Bool.or_eq_true, decide_eq_true_eq] at h
+  rcases ht with rfl | rfl <;> rcases h with ((h | h) | h) | h <;> subst h <;> decide
+
+theorem pow2_of_not {n : Nat} (h : ¬ (!isPow2UpTo8 n) = true) : isPow2UpTo8 n = true := by
+  cases hx : isPow2UpTo8 n with
+  | true => rfl
+  | false => rw [hx] at h; simp at h
+
+theorem fmtSvo_mem (n k : Nat) (hn : n = 1 ∨ n = 4) : ({ ({ fmtS n with valueOffset := k } : OffsetFormat) with valueOffset := 0 } : OffsetFormat) ∈ formatsProved := by
+  rcases hn with rfl | rfl
+  · show (fS1 : OffsetFormat) ∈ formatsProved; decide
+  · show (fS4 : OffsetFormat) ∈ formatsProved; decide
+theorem fU4vo_mem (k : Nat) : ({ ({ simpleValue .unsigned 4 with valueOffset := k } : OffsetFormat) with valueOffset := 0 } : OffsetFormat) ∈ formatsProved := by
+  show (fU4 : OffsetFormat) ∈ formatsProved; decide
+theorem kfmt_mem (k : A64Kind) : ({ k.fmt with valueOffset := 0 } : OffsetFormat) ∈ formatsProved := by
+  cases k <;> decide
+
+theorem a64abs_siteOK (s : State) (k : AKind) (re : Reloc) (hf : re.fmt = k.kind.fmt) (hr : re.regionSize = 4)
+    (hs : re.srcSec = s.cur) (ho : re.srcOff = s.curOff) (hty : re.type = .absToRel) :
+    SiteOK s re.rgn (leBytes k.opcode.toNat 4) := by
+  obtain ⟨o, h1, h2⟩ := a64_tail k
+  have e8 : k.kind.fmt.valueSize ≠ 8 := by cases k <;> decide
+  have e0 : k.kind.fmt.valueOffset = 0 := by cases k <;> rfl
+  have e4 : k.kind.fmt.valueOffset + k.kind.fmt.valueSize ≤ 4 := by cases k <;> decide
+  have ep : 0 < k.kind.fmt.valueSize := by cases k <;> decide
+  refine ⟨hs, ho, ?_, ?_, ?_, ?_, ?_, ⟨o, ?_, ?_⟩⟩
+  · show re.regionSize ≤ _; rw [hr, leBytes_length]; exact Nat.le_refl _
+  · show re.fmt.valueOffset + re.fmt.valueSize ≤ re.regionSize; rw [hf, hr]; exact e4
+  · show 0 < re.fmt.valueSize; rw [hf]; exact ep
+  · show ({ re.fmt with valueOffset := 0 } : OffsetFormat) ∈ formatsProved; rw [hf]; exact kfmt_mem _
+  · intro hx; have : re.type = .x64AddressEntry := hx; rw [hty] at this; cases this
+  · show loadLE _ re.fmt.valueOffset re.fmt.valueSize = _
+    rw [hf, e0]; exact h1
+  · show (if re.fmt.valueSize = 8 then o = 0 else BitVec.ofNat 32 o &&& fieldMask32 re.fmt = 0#32)
+    rw [hf, if_neg e8]; exact h2
+
+/-- the address-table form: `add_address_to_address_table`, then the relocation entry and the instruction -/
+theorem grow_tab (s : State) (hc : s.cur < s.secs.length) (t : BitVec 64) (re : Reloc) (bytes : Bytes) (h : SiteOK s re.rgn bytes) :
+    Grow s ((newReloc (addAddress s t) re).1.emit bytes) := by
+  have hA := curOff_addAddress s t hc
+  have hAf := frame_addAddress s t hc
+  have hAt : (addAddress s t).addrTabSec = s.addrTabSec ∨ (s.addrTabSec = none ∧ (addAddress s t).addrTabSec = some s.secs.length) := by
+    unfold addAddress
+    split
+    · exact .inl rfl
+    · cases hx : s.addrTabSec with
+      | some i => exact .inl (by simp [hx])
+      | none => exact .inr ⟨rfl, by simp⟩
+  exact grow_after hc hAf.secs hA.2.2.1 hA.2.2.2.1 hA.1 hA.2.1 hAt rfl
+    (grow_newReloc_emit (addAddress s t) hAf.cur re bytes
+      ⟨h.sec.trans hA.1.symm, h.off.trans hA.2.1.symm, h.size, h.val, h.pos, h.fmt, h.tab, h.zero⟩)
 
 theorem step_grow (s : State) (op : Op) (hop : op.early = true) (h : Inv s) : Grow s (step s op).1 := by
   have hc := h.cur
   cases op with
-  | newLabel => simp only [step]; exact grow_ext (SecsExt.refl _) rfl rfl
+  | newLabel => simp only [step]; exact grow_ext (SecsExt.refl _) rfl rfl rfl id
   | newSection a o =>
     simp only [step]; unfold newSection
     split
     · exact grow_refl s
-    · exact grow_ext (secsExt_append _ _) rfl rfl
+    · exact grow_ext (secsExt_append _ _) rfl rfl rfl id
   | «section» id =>
     simp only [step]; unfold switchSection
     split
-    · exact grow_ext (SecsExt.refl _) rfl rfl
+    · rename_i hcnd
+      exact grow_ext (SecsExt.refl _) rfl rfl rfl (fun _ => hcnd.2)
     · exact grow_refl s
   | bind l => simp only [step]; unfold bind; exact grow_bindLabel s h _ _ _
   | align n =>
@@ -279,11 +400,14 @@ theorem step_grow (s : State) (op : Op) (hop : op.early = true) (h : Inv s) : Gr
         · cases le with
           | bound lsec loff =>
             dsimp only
-            exact grow_newReloc_emit s hc _ _ rfl rfl (by simp [zeros_length]; omega) (by dsimp only [simpleValue]; omega) (by dsimp only [simpleValue]; omega)
+            exact grow_newReloc_emit s hc _ _ ⟨rfl, rfl, (by simp only [Reloc.rgn, List.length_append, zeros_length]; omega), (by dsimp only [Reloc.rgn, simpleValue]; omega),
+              (by dsimp only [Reloc.rgn, simpleValue]; omega), fU4vo_mem _, (fun hx => by cases hx),
+              ⟨0, (by show loadLE (_ ++ zeros 4 ++ _) _ 4 = _; rw [List.append_assoc]; exact zl_lead_imm _ _ 4), zcond _ _⟩⟩
           | unbound fx =>
             dsimp only
-            exact grow_reloc_fixup s hc _ _ _ l _ rfl rfl (by simp [zeros_length]; omega) (by dsimp only [simpleValue]; omega)
-              (by dsimp only [simpleValue]; omega) rfl (by show s.curOff ≤ s.curOff + _; omega) (by simp)
+            exact grow_reloc_fixup s hc _ _ _ l _ ⟨rfl, rfl, (by simp only [Reloc.rgn, List.length_append, zeros_length]; omega), (by dsimp only [Reloc.rgn, simpleValue]; omega),
+              (by dsimp only [Reloc.rgn, simpleValue]; omega), fU4vo_mem _, (fun hx => by cases hx),
+              ⟨0, zl_lead_imm _ _ 4, zcond _ _⟩⟩ rfl (by show s.curOff ≤ s.curOff + _; omega) (by simp)
         · cases le with
           | unbound fx =>
             dsimp only
@@ -312,7 +436,7 @@ theorem step_grow (s : State) (op : Op) (hop : op.early = true) (h : Inv s) : Gr
         · split
           · exact grow_emit s _
           · exact grow_refl s
-        · exact grow_newFixup_emit s s (Frame.refl hc) rfl l _ _ [] (by simp) (by simp) (fun _ hx => by cases hx) rfl
+        · exact grow_newFixup_emit s s (Frame.refl hc) rfl rfl l _ _ [] (by simp) (by simp) (fun _ hx => by cases hx) rfl
             (Nat.le_refl _) (fun _ => rfl)
   | elabel l n =>
     simp only [step]; unfold embedLabel
@@ -325,29 +449,35 @@ theorem step_grow (s : State) (op : Op) (hop : op.early = true) (h : Inv s) : Gr
         repeat' (first | split | dsimp only)
         all_goals first
           | exact grow_refl s
-          | exact grow_newReloc_emit s hc _ _ rfl rfl (by simp [zeros_length]) (by dsimp only [simpleValue]; omega)
-              (by dsimp only [simpleValue]; exact pow2UpTo8_pos ‹_›)
+          | exact grow_newReloc_emit s hc _ _ ⟨rfl, rfl, (by simp [zeros_length, Reloc.rgn]), (by dsimp only [Reloc.rgn, simpleValue]; omega),
+              (by dsimp only [Reloc.rgn, simpleValue]; exact pow2UpTo8_pos ‹_›), simple_mem _ (.inl rfl) _ (pow2_of_not ‹_›),
+              (fun hx => by cases hx), ⟨0, zl_zeros _, zcond _ _⟩⟩
       | unbound fx =>
         dsimp only
         repeat' (first | split | dsimp only)
         all_goals first
           | exact grow_refl s
-          | exact grow_reloc_fixup0 s hc _ _ l _ rfl rfl (by simp [zeros_length]) (by dsimp only [simpleValue]; omega)
-              (by dsimp only [simpleValue]; exact pow2UpTo8_pos ‹_›) rfl (Nat.le_refl _) (by simp)
+          | exact grow_reloc_fixup0 s hc _ _ l _ ⟨rfl, rfl, (by simp [zeros_length, Reloc.rgn]), (by dsimp only [Reloc.rgn, simpleValue]; omega),
+              (by dsimp only [Reloc.rgn, simpleValue]; exact pow2UpTo8_pos ‹_›), simple_mem _ (.inl rfl) _ (pow2_of_not ‹_›),
+              (fun hx => by cases hx), ⟨0, zl_zeros _, zcond _ _⟩⟩ rfl (Nat.le_refl _) (by simp)
   | edelta l b n =>
     simp only [step]; unfold embedLabelDelta
     repeat' (first | split | dsimp only)
     all_goals first
       | exact grow_refl s
       | exact grow_emit s _
-      | exact grow_exprs_emit s hc _ _ _ rfl rfl (by simp [zeros_length]) (by dsimp only [simpleValue]; omega)
-          (by dsimp only [simpleValue]; exact pow2UpTo8_pos ‹_›)
+      | exact grow_exprs_emit s hc _ _ _ ⟨rfl, rfl, (by simp [zeros_length, Reloc.rgn]), (by dsimp only [Reloc.rgn, simpleValue]; omega),
+          (by dsimp only [Reloc.rgn, simpleValue]; exact pow2UpTo8_pos ‹_›), simple_mem _ (.inr rfl) _ (pow2_of_not ‹_›),
+          (fun hx => by cases hx), ⟨0, zl_zeros _, zcond _ _⟩⟩
   | vsize i v =>
     simp only [step]; unfold setVirtSize
     split
-    · exact grow_ext (secsExt_modifySec _ _ _ (fun x => ⟨[], by simp⟩)) rfl rfl
+    · exact grow_ext (secsExt_modifySec _ _ _ (fun x => ⟨[], by simp⟩)) rfl rfl rfl id
     · exact grow_refl s
-  | flatten => simp only [step]; exact grow_ext (frame_flatten s hc).secs (by unfold flatten; dsimp only; split <;> rfl) (frame_flatten s hc).ghost
+  | flatten =>
+    simp only [step]
+    exact grow_ext (frame_flatten s hc).secs (by unfold flatten; dsimp only; split <;> rfl) (frame_flatten s hc).ghost
+      (by unfold flatten; dsimp only; split <;> rfl) (by unfold flatten; dsimp only; split <;> exact id)
   | resolve => cases hop
   | relocate b => cases hop
   | jmpAbs k opt t =>
@@ -356,17 +486,22 @@ theorem step_grow (s : State) (op : Op) (hop : op.early = true) (h : Inv s) : Gr
     · exact grow_refl s
     · unfold x86JmpAbs emitJmpCallRel
       dsimp only
-      have hA := curOff_addAddress s t hc
-      have hAf := frame_addAddress s t hc
       repeat' split
       all_goals first
         | exact grow_refl s
         | exact grow_emit s _
-        | exact grow_newReloc_emit s hc _ _ rfl rfl (by simp only [List.length_append, zeros_length, List.length_cons, List.length_nil]; omega) (by dsimp only [fmtS, simpleValue]; omega)
-            (by dsimp only [fmtS, simpleValue]; omega)
-        | exact grow_after hAf.secs hA.2.2.1 hA.2.2.2.1 hA.1 hA.2.1
-            (grow_newReloc_emit (addAddress s t) hAf.cur _ _ hA.1.symm hA.2.1.symm (by simp only [List.length_append, zeros_length, List.length_cons, List.length_nil]; omega)
-              (by dsimp only [fmtS, simpleValue]; omega) (by dsimp only [fmtS, simpleValue]; omega))
+        | exact grow_newReloc_emit s hc _ _ ⟨rfl, rfl, (by simp only [Reloc.rgn, List.length_append, zeros_length, List.length_cons, List.length_nil]; omega),
+            (by dsimp only [Reloc.rgn, fmtS, simpleValue]; omega), (by dsimp only [Reloc.rgn, fmtS, simpleValue]; omega),
+            fmtSvo_mem _ _ (by first | exact .inl rfl | exact .inr rfl), (fun hx => by cases hx), ⟨0, zl_lead _ _, zcond _ _⟩⟩
+        | exact grow_tab s hc t _ _ ⟨rfl, rfl, (by simp only [Reloc.rgn, List.length_append, zeros_length, List.length_cons, List.length_nil]; omega),
+            (by dsimp only [Reloc.rgn, fmtS, simpleValue]; omega), (by dsimp only [Reloc.rgn, fmtS, simpleValue]; omega),
+            fmtSvo_mem _ _ (.inr rfl),
+            (fun _ => by
+              have h32 : (JKind.shape s.arch k).op32 ≠ [] := ‹_›
+              have : 0 < (JKind.shape s.arch k).op32.length := List.length_pos_iff.mpr h32
+              show 2 ≤ List.length (_ ++ [_] ++ _)
+              simp only [List.length_append, List.length_cons, List.length_nil]; omega),
+            ⟨0, zl_lead _ _, zcond _ _⟩⟩
   | a64Abs k t =>
     simp only [step]
     split
@@ -377,7 +512,7 @@ theorem step_grow (s : State) (op : Op) (hop : op.early = true) (h : Inv s) : Gr
       all_goals first
         | exact grow_refl s
         | exact grow_emit s _
-        | exact grow_newReloc_emit s hc _ _ rfl rfl (by simp [leBytes_length]) (by dsimp only; cases k <;> decide) (by dsimp only; cases k <;> decide)
+        | exact grow_newReloc_emit s hc _ _ (a64abs_siteOK s k _ rfl rfl rfl rfl rfl)
 
 theorem step_rinv (s : State) (op : Op) (hop : op.early = true) (h : Inv s) (hr : RInv s) : RInv (step s op).1 :=
   rinv_grow hr h (step_grow s op hop h)
